@@ -57,56 +57,188 @@ impl Elem for u32 {
     fn release(self) {}
 }
 
-/// An argument handed to the caller's closure: by value (then the closure owns it and
-/// we record it as handed over, taking it out of the drop accounting) or by reference.
+/// No drop glue, not `Copy`, and a hand-written `Clone` that is observable (adds 2^20 and
+/// logs the call): a bitwise "no drop glue => copy the bits" shortcut would go unnoticed
+/// with `u32`.
+#[derive(Debug, Default)]
+pub struct Cn(pub u32);
+impl Clone for Cn {
+    fn clone(&self) -> Cn {
+        track::log_clone(self.0 as i64, self.0 as i64 + (1 << 20));
+        Cn(self.0 + (1 << 20))
+    }
+}
+impl Elem for Cn {
+    const TRACKED: bool = false;
+    fn make(id: i64) -> Cn {
+        Cn(id as u32)
+    }
+    fn fresh() -> Cn {
+        Cn(<u32 as Elem>::fresh())
+    }
+    fn id(&self) -> i64 {
+        self.0 as i64
+    }
+    fn release(self) {}
+}
+impl Arg for Cn {
+    const OWNED: bool = false;
+    fn arg_id(&self) -> i64 {
+        self.0 as i64
+    }
+    fn consume(self, _: bool) {}
+}
+impl Arg for &Cn {
+    const OWNED: bool = false;
+    fn arg_id(&self) -> i64 {
+        self.0 as i64
+    }
+    fn consume(self, _: bool) {}
+}
+impl Arg for &mut Cn {
+    const OWNED: bool = false;
+    fn arg_id(&self) -> i64 {
+        self.0 as i64
+    }
+    fn consume(self, _: bool) {}
+}
+
+/// An argument handed to the caller's closure: by value (then the closure owns it: it is
+/// recorded as handed over and either forgotten or dropped BY THE CLOSURE, which is then
+/// subtracted from the drop log) or by reference.
 pub trait Arg {
-    fn take(self, handed: &mut Vec<i64>) -> i64;
+    const OWNED: bool;
+    fn arg_id(&self) -> i64;
+    /// mode 0: forget; mode 1: drop (the destructor may be armed to panic)
+    fn consume(self, drop_it: bool);
 }
 impl Arg for Tr {
-    fn take(self, handed: &mut Vec<i64>) -> i64 {
-        let id = self.id;
-        handed.push(id);
-        std::mem::forget(self);
-        id
+    const OWNED: bool = true;
+    fn arg_id(&self) -> i64 {
+        self.id
+    }
+    fn consume(self, drop_it: bool) {
+        if drop_it {
+            drop(self)
+        } else {
+            std::mem::forget(self)
+        }
     }
 }
 impl Arg for &Tr {
-    fn take(self, _: &mut Vec<i64>) -> i64 {
+    const OWNED: bool = false;
+    fn arg_id(&self) -> i64 {
         self.id
     }
+    fn consume(self, _: bool) {}
 }
 impl Arg for &mut Tr {
-    fn take(self, _: &mut Vec<i64>) -> i64 {
+    const OWNED: bool = false;
+    fn arg_id(&self) -> i64 {
         self.id
     }
+    fn consume(self, _: bool) {}
 }
 impl Arg for u32 {
-    fn take(self, _: &mut Vec<i64>) -> i64 {
-        self as i64
+    const OWNED: bool = false;
+    fn arg_id(&self) -> i64 {
+        *self as i64
     }
+    fn consume(self, _: bool) {}
 }
 impl Arg for &u32 {
-    fn take(self, _: &mut Vec<i64>) -> i64 {
-        *self as i64
+    const OWNED: bool = false;
+    fn arg_id(&self) -> i64 {
+        **self as i64
     }
+    fn consume(self, _: bool) {}
 }
 impl Arg for &mut u32 {
-    fn take(self, _: &mut Vec<i64>) -> i64 {
-        *self as i64
+    const OWNED: bool = false;
+    fn arg_id(&self) -> i64 {
+        **self as i64
     }
+    fn consume(self, _: bool) {}
 }
 
 #[derive(Default)]
 pub struct Rec {
     pub calls: Vec<Vec<i64>>,
     pub handed: Vec<i64>,
+    /// identities the closure itself dropped (mode 1): not the crate's drops
+    pub closure_dropped: Vec<i64>,
     pub pan: Option<usize>,
+    /// 0: the closure panics by itself at call `pan` (its arguments forgotten first);
+    /// 1: the closure drops its arguments and at call `pan` the destructor of its first owned
+    ///    argument panics (falls back to 0 when that call has no owned argument)
+    pub mode: i128,
 }
 impl Rec {
-    fn call(&mut self, args: Vec<i64>) {
+    /// records a call; returns (is this the panicking call, do we drop the arguments)
+    fn call(&mut self, args: Vec<i64>) -> bool {
         let k = self.calls.len();
         self.calls.push(args);
-        if self.pan == Some(k) {
+        self.pan == Some(k)
+    }
+}
+
+/// the protocol of one closure invocation over its by-value / by-reference arguments
+fn invoke1<X: Arg>(rec: &RefCell<Rec>, x: X) {
+    let id = x.arg_id();
+    let (hit, mode) = {
+        let mut r = rec.borrow_mut();
+        if X::OWNED {
+            r.handed.push(id);
+        }
+        let hit = r.call(vec![id]);
+        (hit, r.mode)
+    };
+    if mode == 1 && X::OWNED {
+        rec.borrow_mut().closure_dropped.push(id);
+        if hit {
+            track::arm_drop(Some(id));
+        }
+        x.consume(true);
+    } else {
+        x.consume(false);
+        if hit {
+            panic!("injected closure panic");
+        }
+    }
+}
+fn invoke2<X: Arg, Y: Arg>(rec: &RefCell<Rec>, x: X, y: Y) {
+    let (a, b) = (x.arg_id(), y.arg_id());
+    let (hit, mode) = {
+        let mut r = rec.borrow_mut();
+        if X::OWNED {
+            r.handed.push(a);
+        }
+        if Y::OWNED {
+            r.handed.push(b);
+        }
+        let hit = r.call(vec![a, b]);
+        (hit, r.mode)
+    };
+    if mode == 1 && (X::OWNED || Y::OWNED) {
+        {
+            let mut r = rec.borrow_mut();
+            if X::OWNED {
+                r.closure_dropped.push(a);
+            }
+            if Y::OWNED {
+                r.closure_dropped.push(b);
+            }
+        }
+        if hit {
+            track::arm_drop(Some(if X::OWNED { a } else { b }));
+        }
+        // x is dropped first; if its destructor panics, y is dropped by the unwinding of this frame
+        x.consume(true);
+        y.consume(true);
+    } else {
+        x.consume(false);
+        y.consume(false);
+        if hit {
             panic!("injected closure panic");
         }
     }
@@ -158,10 +290,7 @@ fn finish_box<E: Elem, N: ArrayLength>(r: Result<Box<GenericArray<E, N>>, String
 macro_rules! f1 {
     ($rec:ident, $E:ty) => {
         |x| {
-            let mut r = $rec.borrow_mut();
-            let id = Arg::take(x, &mut r.handed);
-            r.call(vec![id]);
-            drop(r);
+            invoke1(&$rec, x);
             <$E as Elem>::fresh()
         }
     };
@@ -169,11 +298,7 @@ macro_rules! f1 {
 macro_rules! f2 {
     ($rec:ident, $E:ty) => {
         |x, y| {
-            let mut r = $rec.borrow_mut();
-            let a = Arg::take(x, &mut r.handed);
-            let b = Arg::take(y, &mut r.handed);
-            r.call(vec![a, b]);
-            drop(r);
+            invoke2(&$rec, x, y);
             <$E as Elem>::fresh()
         }
     };
@@ -181,22 +306,24 @@ macro_rules! f2 {
 macro_rules! g1 {
     ($rec:ident) => {
         |acc: i64, x| {
-            let mut r = $rec.borrow_mut();
-            let id = Arg::take(x, &mut r.handed);
-            let k = r.calls.len();
-            r.call(vec![id]);
-            drop(r);
+            let k = $rec.borrow().calls.len();
+            let id = Arg::arg_id(&x);
+            invoke1(&$rec, x);
             fold_g(k, acc, id)
         }
     };
 }
 
 /// Runs one case; returns the observable line and direct-oracle messages.
-pub fn run<E: Elem, N: ArrayLength>(case: &[i128]) -> (Vec<i128>, Vec<String>)
+pub fn run<E, B, U, N: ArrayLength>(case: &[i128]) -> (Vec<i128>, Vec<String>)
 where
     for<'a> &'a E: Arg,
     for<'a> &'a mut E: Arg,
-    E: Arg + Clone + Default,
+    E: Elem + Arg + Clone + Default,
+    for<'a> &'a B: Arg,
+    for<'a> &'a mut B: Arg,
+    B: Elem + Arg,
+    U: Elem,
 {
     let (op, form, _elem, n, pan) = (case[0], case[1], case[2], case[3] as usize, case[4]);
     let (front, back) = (
@@ -204,7 +331,8 @@ where
         case.get(6).copied().unwrap_or(0) as usize,
     );
     track::reset(1000);
-    let rec = RefCell::new(Rec { pan: if pan >= 0 { Some(pan as usize) } else { None }, ..Default::default() });
+    let mode = case.get(7).copied().unwrap_or(0);
+    let rec = RefCell::new(Rec { pan: if pan >= 0 { Some(pan as usize) } else { None }, mode, ..Default::default() });
     let mut sources: Vec<i64> = vec![]; // identities owned by BORROWED inputs (must survive)
     let mut extra_obs: Vec<i128> = vec![];
     let start;
@@ -235,35 +363,35 @@ where
         }
         1 => {
             let a: GenericArray<E, N> = arr(0);
-            let b: GenericArray<E, N> = arr(100);
+            let b: GenericArray<B, N> = arr(100);
             start = track::log_len();
             if form == 9 {
                 let (a, b) = (Box::new(a), Box::new(b));
-                finish_box(catch(|| a.zip(b, f2!(rec, E))))
+                finish_box(catch(|| a.zip(b, f2!(rec, U))))
             } else {
                 let (mut a, mut b) = (a, b);
                 let r = match (form / 3, form % 3) {
-                    (0, 0) => finish_ga(catch(|| a.zip(b, f2!(rec, E)))),
+                    (0, 0) => finish_ga(catch(|| a.zip(b, f2!(rec, U)))),
                     (0, 1) => {
-                        let r = finish_ga(catch(|| a.zip(&b, f2!(rec, E))));
+                        let r = finish_ga(catch(|| a.zip(&b, f2!(rec, U))));
                         sources.extend(ids(b.iter()));
                         std::mem::forget(b);
                         r
                     }
                     (0, _) => {
-                        let r = finish_ga(catch(|| a.zip(&mut b, f2!(rec, E))));
+                        let r = finish_ga(catch(|| a.zip(&mut b, f2!(rec, U))));
                         sources.extend(ids(b.iter()));
                         std::mem::forget(b);
                         r
                     }
                     (1, 0) => {
-                        let r = finish_ga(catch(|| (&a).zip(b, f2!(rec, E))));
+                        let r = finish_ga(catch(|| (&a).zip(b, f2!(rec, U))));
                         sources.extend(ids(a.iter()));
                         std::mem::forget(a);
                         r
                     }
                     (1, 1) => {
-                        let r = finish_ga(catch(|| (&a).zip(&b, f2!(rec, E))));
+                        let r = finish_ga(catch(|| (&a).zip(&b, f2!(rec, U))));
                         sources.extend(ids(a.iter()));
                         sources.extend(ids(b.iter()));
                         std::mem::forget(a);
@@ -271,7 +399,7 @@ where
                         r
                     }
                     (1, _) => {
-                        let r = finish_ga(catch(|| (&a).zip(&mut b, f2!(rec, E))));
+                        let r = finish_ga(catch(|| (&a).zip(&mut b, f2!(rec, U))));
                         sources.extend(ids(a.iter()));
                         sources.extend(ids(b.iter()));
                         std::mem::forget(a);
@@ -279,13 +407,13 @@ where
                         r
                     }
                     (_, 0) => {
-                        let r = finish_ga(catch(|| (&mut a).zip(b, f2!(rec, E))));
+                        let r = finish_ga(catch(|| (&mut a).zip(b, f2!(rec, U))));
                         sources.extend(ids(a.iter()));
                         std::mem::forget(a);
                         r
                     }
                     (_, 1) => {
-                        let r = finish_ga(catch(|| (&mut a).zip(&b, f2!(rec, E))));
+                        let r = finish_ga(catch(|| (&mut a).zip(&b, f2!(rec, U))));
                         sources.extend(ids(a.iter()));
                         sources.extend(ids(b.iter()));
                         std::mem::forget(a);
@@ -293,7 +421,7 @@ where
                         r
                     }
                     (_, _) => {
-                        let r = finish_ga(catch(|| (&mut a).zip(&mut b, f2!(rec, E))));
+                        let r = finish_ga(catch(|| (&mut a).zip(&mut b, f2!(rec, U))));
                         sources.extend(ids(a.iter()));
                         sources.extend(ids(b.iter()));
                         std::mem::forget(a);
@@ -335,9 +463,10 @@ where
         3 => {
             start = track::log_len();
             let gen = |i: usize| {
-                let mut r = rec.borrow_mut();
-                r.call(vec![i as i64]);
-                drop(r);
+                let hit = rec.borrow_mut().call(vec![i as i64]);
+                if hit {
+                    panic!("injected closure panic");
+                }
                 E::fresh()
             };
             match form {
@@ -419,9 +548,18 @@ where
         }
         _ => panic!("bad op"),
     };
+    track::arm_drop(None);
     let log = track::log_from(start);
-    let dropped = track::drops_sorted(&log);
     let mut rec = rec.into_inner();
+    // drops performed by the closure itself (mode 1) are not the crate's
+    let mut dropped = track::drops_sorted(&log);
+    for id in &rec.closure_dropped {
+        if let Some(pos) = dropped.iter().position(|d| d == id) {
+            dropped.remove(pos);
+        } else {
+            extra_obs.push(-5); // the closure's own drop of an argument is missing from the log
+        }
+    }
     if op == 4 || op == 6 {
         // the callback is Clone::clone: the call log is the sequence of clone attempts
         for e in &log {
@@ -447,7 +585,7 @@ where
 
     // direct oracle (tracked elements): everything that existed is accounted for exactly once
     let mut oracle = vec![];
-    if E::TRACKED {
+    if E::TRACKED || B::TRACKED {
         let mut created: Vec<i64> = vec![];
         for e in track::log_from(0) {
             match e {
@@ -468,6 +606,8 @@ where
         }
         created.retain(|x| !pre_released.contains(x));
         created.sort();
+        // plain (untracked) inputs have no identities to account for
+        sources.retain(|x| created.contains(x));
         let mut accounted: Vec<i64> = dropped.clone();
         accounted.extend(&handed);
         accounted.extend(&out.result.iter().copied().filter(|_| op != 2 && op != 7 && op != 8).collect::<Vec<_>>());
